@@ -43,7 +43,8 @@ type timed struct {
 	commitRound   int64
 	byzOldPropose map[int]*bft.Message
 	sentAttack    map[string]bool
-	planA         int // plan "two locks": the replica that locks alone (-1 = no plan)
+	plant         bool // Byzantine validators also plant partial QCs for the view of the round's certificate
+	planA         int  // plan "two locks": the replica that locks alone (-1 = no plan)
 }
 
 type chaosPre struct {
